@@ -4,12 +4,17 @@ from props import tokcommon as tc
 PROP = "C03"
 ENGINE = "tok"
 USES_TRANSLATOR = True
-LEAN_TARGETS = ["H5V.Props.C03", "H5V.Props.C03End"]
-AUDIT_IMPORTS = ["H5V.Props.C03End"]
+LEAN_TARGETS = ["H5V.Props.C03", "H5V.Props.C03End", "H5V.Props.C03Tree"]
+AUDIT_IMPORTS = ["H5V.Props.C03End", "H5V.Props.C03Tree"]
 THEOREMS = ["H5V.Props.C03." + t for t in [
     "C03_chunk_independence", "C03_step_mono", "C03_step_resume", "C03_step_invariant", "C03_bom_once",
     "C03_runsTo_deterministic", "runP_sound", "runP_complete", "good_initial",
-    "C03_finish_sim", "C03_chunked_then_end", "run_sim", "eofLoop_setCC"]] + [
+    "C03_finish_sim", "C03_chunked_then_end", "run_sim", "eofLoop_setCC",
+    # tree level (Props/C03Tree.lean): the tree-builder model is insensitive to how character runs are cut into tokens
+    "C03_tb_sim_fields", "C03_tb_sim_equiv", "C03_tb_good_init", "C03_tb_good_preserved", "C03_tb_char_split",
+    "C03_tb_sim_step", "C03_tb_sim_end", "C03_tb_chars_continue", "C03_tree_resplit_run", "C03_tree_resplit",
+    "C03_tree_resplit_fragment", "C03_tree_resplit_end", "C03_tree_obs", "C03_tree_obs_fragment",
+    "C03_resplit_of_merge_eq", "C03_tree_merge_obs"]] + [
     "H5V.Model.HtmlTok." + t for t in ["session_flatten", "runsTo_chunk", "step_sim", "transSet_dead", "transChar_enter"]]
 TRUSTED = [
     "Lean 4 kernel; axioms ⊆ {propext, Classical.choice, Quot.sound} (audited per run)",
@@ -20,9 +25,13 @@ TRUSTED = [
     "tools/extract.py regenerates the per-state small_char_set tables (Gen.TokSets) consulted by the model's side conditions",
 ]
 ASSUMPTIONS = [
-    "tree-level chunk independence (tokens -> tree builder -> DOM) is checked on the real code by C02/C06's engine, "
-    "not stated here",
+    "tree level: C03_tree_merge_obs proves that two token lists equal after merging adjacent character tokens give the "
+    "same DOM, quirks mode and pause answers in the tree-builder model (documents and fragments); the composition with the "
+    "tokenizer theorem through the joint driver (whose sink policy is the tree-builder state) is not a single theorem - "
+    "the chunked-vs-whole tree oracle on the real code decides it end to end",
     "the sink answers only through TokenSinkResult (modelled as a pure policy of the token history)",
+    "tree-builder parse errors (sink.parse_error calls) legitimately depend on how character runs are cut; they are not "
+    "part of the observation",
 ]
 RULE = ("every input of the exhaustive tokenizer cover (73 states × 41 character classes × 6 suffixes, look-ahead keyword "
         "families, state × ordered pairs) is fed whole, in every 2-partition and as singletons; script/indicator pauses "
